@@ -94,7 +94,7 @@ fn nworkers(id: &str) -> usize {
         let n = std::thread::available_parallelism().map(|n| n.get()).unwrap_or(8).min(16);
         // checks that spawn the p2sh binary: process creation does not scale in this
         // sandbox (more than ~4 concurrent spawners lower the total throughput)
-        if matches!(id, "C20" | "C21" | "C22" | "C23" | "C24") {
+        if matches!(id, "C20" | "C23" | "C24") {
             n.min(4)
         } else {
             n
